@@ -87,6 +87,20 @@ Fixpoint n_items_agree (its : list sx) (bufs : list (list N)) (lens : list nat) 
 
 Definition b2z (b : bool) : Z := if b then 1 else 0.
 
+(* size classes that say whether a case reaches the records without data bytes (measured here, not in the harness):
+   V:  0 no records, 6 some record is empty, 1 otherwise
+   VB: 0 no records, 7 some block ENDS with an empty record (the input fix eee0fb2 is about), 6 some record is empty
+       but none stands last in its block, otherwise [dflt] *)
+Definition is_empty (r : list N) : bool := match r with [] => true | _ => false end.
+Definition ends_empty (b : list (list N)) : bool := match rev b with r :: _ => is_empty r | [] => false end.
+Definition cls_V (recs : list (list N)) : Z :=
+  match recs with [] => 0 | _ => if existsb is_empty recs then 6 else 1 end.
+Definition cls_VB (blocks : list (list (list N))) (dflt : Z) : Z :=
+  match concat blocks with
+  | [] => 0
+  | _ => if existsb ends_empty blocks then 7 else if existsb is_empty (concat blocks) then 6 else dflt
+  end.
+
 (* Outside the property's domain (raw/corrupt images, illegal record lists, consumers that break the RECFM_N
    protocol) the property says nothing and a rewrite of the library may legitimately behave differently, so the
    case always passes; whether the implementation still equals the model is reported in the branch:
@@ -123,14 +137,14 @@ Definition last_is_full (ps : list pass) : bool :=
 (* resumed reading: every pass delivers what the Spec expects, the last (full) pass leaves nothing *)
 Definition judge_multi (base : Z) (kind : N) (clean image_ok legal : bool) (ps : list pass)
     (expected : option (list (list (list N)))) (model : list (out N (list N))) (obs : list sx)
-    (total : nat) (nonempty : bool) : sx :=
+    (total : nat) (cls : Z) : sx :=
   let indom := clean && legal && last_is_full ps && match expected with Some _ => true | None => false end in
   let good := match expected with
               | Some e => all2 pass_good obs e && Z.eqb (obs_tell (last obs (L []))) (Z.of_nat total)
               | None => false
               end in
   let agree := all2 (pass_agrees total) obs model in
-  finish image_ok clean indom good agree base (if nonempty then 1 else 0)
+  finish image_ok clean indom good agree base cls
          (L [A (b2z good); A (b2z agree)]).
 
 Definition judge (c : sx) : sx :=
@@ -151,19 +165,19 @@ Definition judge (c : sx) : sx :=
     judge_multi 40 kind clean (negb clean || lN_eqb image (write_F recs)) (legal_F (Z.to_nat param) recs
                 && (N.of_nat (Z.to_nat param) + 4 <=? max_hdr)%N) ps
                 (expect_passes ps recs) (run_passes (F_pass kind param) ps image) (as_list oA) total
-                (match recs with [] => false | _ => true end)
+                (match recs with [] => 0 | _ => 1 end)
   else if fmt =? 5 then
     let recs := dec_recs recs_sx in
     let ps := map dec_pass (as_list (nth_sx 5 c)) in
     judge_multi 50 kind clean (negb clean || lN_eqb image (write_V recs)) (legal_V recs) ps
                 (expect_passes ps recs) (run_passes (V_pass kind) ps image) (as_list oA) total
-                (match recs with [] => false | _ => true end)
+                (cls_V recs)
   else if fmt =? 6 then
     let blocks := map dec_recs (as_list recs_sx) in
     let ps := map dec_pass (as_list (nth_sx 5 c)) in
     judge_multi 60 kind clean (negb clean || lN_eqb image (write_VB blocks)) (legal_VB blocks) ps
                 (expect_passes_VB ps blocks) (run_passes (VB_pass kind) ps image) (as_list oA) total
-                (match concat blocks with [] => false | _ => true end)
+                (cls_VB blocks 1)
   else if fmt =? 0 then
     let recs := dec_recs recs_sx in
     let image_ok := negb clean || lN_eqb image (write_F recs) in
@@ -185,7 +199,7 @@ Definition judge (c : sx) : sx :=
     let gB := obs_is oB (map rdw_rec recs) total in
     let aA := obs_agrees oA (V_record_iter kind image) total in
     let aB := obs_agrees oB (V_rdw_iter kind image) total in
-    let cls := match recs with [] => 0 | _ => 1 end in
+    let cls := cls_V recs in
     finish image_ok clean indom (gA && gB) (aA && aB) 10 cls
            (L [A (b2z gA); A (b2z gB); A (b2z aA); A (b2z aB)])
   else if fmt =? 2 then
@@ -199,7 +213,7 @@ Definition judge (c : sx) : sx :=
     let aA := obs_agrees oA (VB_record_iter kind image) total in
     let aB := obs_agrees oB (VB_rdw_iter kind image) total in
     let aC := obs_agrees oC (VB_bdw_iter kind image) total in
-    let cls := match recs with [] => 0 | _ => if (length blocks <? length recs)%nat then 2 else 1 end in
+    let cls := cls_VB blocks (if (length blocks <? length recs)%nat then 2 else 1) in
     finish image_ok clean indom (gA && gB && gC) (aA && aB && aC) 20 cls
            (L [A (b2z gA); A (b2z gB); A (b2z gC); A (b2z aA); A (b2z aB); A (b2z aC)])
   else
